@@ -638,17 +638,14 @@ func vc07Subsets() [][]int {
 
 func TestVerif_C07(t *testing.T) {
 	rng := vh.NewRng(vh.Seed())
-	variants := 2
-	if vh.Thorough() {
-		variants = 6
-	}
+	variants := 2 // quick: per (n8,n6,n5) one address with single-record chains and one with random record compositions
 	rep := vh.NewReport("C07", "gsfa",
-		"addresses: every (n8,n6,n5) in {0..4}^3 entries per epoch (0 = absent from that epoch's index) x record compositions (one record + random ones); "+
+		"addresses: every (n8,n6,n5) in {0..4}^3 entries per epoch (0 = absent from that epoch's index) x record compositions (quick: one record + a random composition; thorough: all compositions); "+
 			"sig-bounded calls: every limit in {-1,0,1..N+1,1000} x before in {none, every signature of the history, an absent one} x until likewise, on all 3 readers, plus every descending sub-list of readers on a sample; "+
 			"slot-bounded calls: every (before,until) over the slots of the history and their neighbours, epoch boundaries, 0, huge x limits {1,2,N,1000}; "+
 			"a case is non-trivial when the history has >= 2 entries and the expected result is non-empty; distinct by (address, readers, parameters)")
 	cases := vh.NewCases("cases_c07_gsfa", []string{"YF.C07_Model", "YF.C07_Check"}, "case", "check")
-	fx := vc07Build(t, rng, variants, false)
+	fx := vc07Build(t, rng, variants, vh.Thorough()) // thorough: every combination of record compositions (4096 addresses)
 	defer func() {
 		for _, r := range fx.readers {
 			if r != nil {
@@ -673,7 +670,7 @@ func TestVerif_C07(t *testing.T) {
 	// probability with which a call is also handed to the Coq checker
 	coqEvery := 100
 	if vh.Thorough() {
-		coqEvery = 300
+		coqEvery = 700
 	}
 	for ai, a := range fx.addrs {
 		h := a.flat(full)
